@@ -37,10 +37,10 @@ def role(node, params):
 
 
 def check(prog, rep):
-    _operators(prog, rep)
-    _truncation(prog, rep)
-    _index_maps(prog, rep)
-    _identity(prog, rep)
+    rep.section(_operators, prog, rep)
+    rep.section(_truncation, prog, rep)
+    rep.section(_index_maps, prog, rep)
+    rep.section(_identity, prog, rep)
     rep.expect_min("R11.1", 40)
     rep.expect_min("R11.2", 14)
     rep.expect_min("R11.3", 10)
